@@ -81,3 +81,24 @@ Theorem C17_mobius_ok_spec : forall s o x r v, mobius_ok s o = true -> In x o ->
   - (s * ((1#100000) + (1#100000) * qabs v)) <= r - v <= s * ((1#100000) + (1#100000) * qabs v).
 Proof. exact mobius_ok_spec. Qed.
 Print Assumptions C17_mobius_ok_spec.
+
+(* min-type redundancies (I_mmi; I_min per target value) are monotone along the lattice, bounded by every member,
+   non-negative, and depend on the node only as a set (Proofs/C17_Mono.v) *)
+From Verif Require Import C17_Mono.
+From Coq Require Import Permutation.
+Theorem C17_mmi_red_monotone : forall mi a b, (forall A B, ssubset A B = true -> mi A <= mi B) ->
+  a <> [] -> b <> [] -> nle a b = true -> mmi_red mi a <= mmi_red mi b.
+Proof. exact mmi_red_monotone. Qed.
+Print Assumptions C17_mmi_red_monotone.
+Theorem C17_mmi_red_le_member : forall mi n A, In A n -> mmi_red mi n <= mi A.
+Proof. exact mmi_red_le_member. Qed.
+Print Assumptions C17_mmi_red_le_member.
+Theorem C17_mmi_red_perm : forall mi n n', Permutation n n' -> mmi_red mi n == mmi_red mi n'.
+Proof. exact mmi_red_perm. Qed.
+Print Assumptions C17_mmi_red_perm.
+Theorem C17_imin_red_monotone : forall (T : Type) (ts : list T) (p : T -> Q) (s : T -> list nat -> Q) a b,
+  (forall t, In t ts -> 0 <= p t) -> (forall t, In t ts -> forall A B, ssubset A B = true -> s t A <= s t B) ->
+  a <> [] -> b <> [] -> nle a b = true ->
+  qsum (map (fun t => p t * mmi_red (s t) a) ts) <= qsum (map (fun t => p t * mmi_red (s t) b) ts).
+Proof. exact (@imin_red_monotone). Qed.
+Print Assumptions C17_imin_red_monotone.
